@@ -306,11 +306,49 @@ class AliasWorld(WorldBase):
                 pass
         return False
 
+    def _caller_memory(self, b):
+        for item in self.locker:
+            try:
+                if np.shares_memory(b, item['arr']):
+                    return True
+            except Exception:
+                pass
+        return False
+
+    def _writeable_base(self, a):
+        '''The first writeable ndarray in the .base chain of a read-only array that is not one of the
+        caller's own buffers (those are the alias oracle's business): a write through it is a write
+        into the container.'''
+        b = a.base
+        n = 0
+        while isinstance(b, np.ndarray) and n < 8:
+            if b.flags.writeable and b.size:
+                if self._caller_memory(b):
+                    return None
+                seen = self.__dict__.setdefault('_seen_bases', [])
+                if any(b is x for x in seen):
+                    return None  # already reported / counted at the place it first appeared
+                seen.append(b)
+                return b
+            b = b.base
+            n += 1
+        return None
+
     def _check_arrays_of(self, e, site, cls):
         for name, a in self._arrays_of(e.obj):
             if a.flags.writeable:
                 alias = self._shares_input(a)
                 raise Violation('C01.readonly.alias' if alias else 'C01.readonly', f"{type(e.obj).__name__}.{name}", 'after:' + site, f'array obtainable from the container is writeable (shares a caller buffer: {alias})')
+            if self._writeable_base(a) is not None:
+                fam = type(e.obj).__name__.replace('HE', '')
+                self._base_violation(f'{fam}.{name}', 'born:' + e.origin, 'array obtainable from the container is a read-only view of a writeable library-owned buffer (ndarray.base)')
+
+    def _base_violation(self, site, cls, detail):
+        sweep = getattr(self, 'base_sweep', None)
+        if sweep is not None:
+            sweep.add((site, cls))
+            return
+        raise Violation('C01.readonly.base', site, cls, detail)
 
     def collect(self, r, site, cls, depth=0):
         '''Walk a result: arrays must be read-only, static containers join the pool.'''
@@ -325,6 +363,9 @@ class AliasWorld(WorldBase):
                 fam = site.replace('SeriesHE.', 'Series.').replace('FrameHE.', 'Frame.').replace('IndexDate.', 'Index.')
                 raise Violation('C01.readonly.alias' if alias else 'C01.readonly.fresh', site if alias else fam, cls if alias else '',
                                 f'returned ndarray (dtype {r.dtype}, shape {r.shape}) is writeable' + (' and shares memory with a live container' if alias else ''))
+            if r.ndim > 0 and r.size and self._writeable_base(r) is not None:
+                fam = site.replace('SeriesHE.', 'Series.').replace('FrameHE.', 'Frame.').replace('IndexDate.', 'Index.')
+                self._base_violation(fam, 'returned', f'returned ndarray (dtype {r.dtype}, shape {r.shape}) is a read-only view of a writeable library-owned buffer (ndarray.base)')
             if len(self.handed) < 40 and r.size:
                 self.handed.append(r)
             return
@@ -464,7 +505,20 @@ class AliasWorld(WorldBase):
                         sa[l] = np.arange(nr) + 10 * j
                     sa.flags.writeable = w
                     self._keep(sa, 'structured array')
-                    return cls.from_structured_array(sa, name=name), 'Frame.from_structured_array'
+                    # forms of dtypes= (each a tempting "astype copies anyway" shortcut) and an index taken from a field
+                    form = {'2d': 'none', 'columns': 'single-i8', 'mixed': 'single-f8', 'fortran': 'list', 'view': 'mapping', 'strided': 'single-i8+index'}[layout]
+                    kw = {}
+                    if form.startswith('single-i8'):
+                        kw['dtypes'] = np.int64
+                    elif form == 'single-f8':
+                        kw['dtypes'] = 'float64'
+                    elif form == 'list':
+                        kw['dtypes'] = [sa.dtype[j] for j in range(len(labels))]
+                    elif form == 'mapping':
+                        kw['dtypes'] = {labels[-1]: sa.dtype[len(labels) - 1]}
+                    if form.endswith('+index') and nc > 1:
+                        kw['index_depth'] = 1
+                    return cls.from_structured_array(sa, name=name, **kw), f'Frame.from_structured_array({form})'
                 a = self._keep(self._mk_array(nr, dk, w, nc, 'strided'), 'Frame strided values')
                 v = a[:, ::2] if nc > 1 else a
                 return cls(v, index=index_arg(nr, 0), name=name), 'Frame(strided view)'
